@@ -43,6 +43,18 @@ def configs(tier, seed):
             r2, o2 = rng.choice([m for m in C.modes() if m != (r, o)])
             out.append(dict(part='pair', op=rng.choice(OPS), x=list(x), y=list(y), sizing=rng.choice(('optimal', 'same')), target=tgt, t=list(t),
                             rounding=r, overflow=o, rounding2=r2, overflow2=o2))
+    # element-wise on arrays: each element is quantised on its own, the flags report the union (one element may overflow while another underflows)
+    for _ in range(40 if tier == 'quick' else 400):
+        x, y = rng.choice(fm), rng.choice(fm)
+        (r, o) = rng.choice(C.modes())
+        r2, o2 = rng.choice([m for m in C.modes() if m != (r, o)])
+        tgt = rng.choice((None, None, 'out', 'out_like'))
+        c = dict(part='pair', op=rng.choice(OPS), x=list(x), y=list(y), sizing=rng.choice(('same', 'smallest', 'largest', 'optimal')), target=tgt,
+                 rounding=r, overflow=o, rounding2=r2, overflow2=o2, shape=[2], yshape=rng.choice(([2], [])))
+        if tgt:
+            c['t'] = list(rng.choice([f for f in fm if f[0] or not (x[0] or y[0])]))
+            c['sizing'] = rng.choice(('optimal', 'same'))
+        out.append(c)
     for _ in range(40 if tier == 'quick' else 400):
         x = rng.choice(fm)
         (r, o) = rng.choice(C.modes())
@@ -69,6 +81,10 @@ def inputs(cfg):
     if cfg['part'] == 'pair':
         lo2, hi2 = SP.limits(cfg['y'][0], cfg['y'][1])
         sp['b'] = dict(kind='int', lo=lo2, hi=hi2)
+        if cfg.get('shape'):
+            sp['a1'] = dict(kind='int', lo=lo, hi=hi)
+            if cfg.get('yshape'):
+                sp['b1'] = dict(kind='int', lo=lo2, hi=hi2)
     elif cfg['part'] == 'const':
         mb = cfg.get('mbits', 8)
         if cfg['kind'] == 'int':
@@ -95,9 +111,13 @@ def run(F, cfg, inp):
         for method in ('raw', 'repr'):
             # codes are stored first (under the default saturating configuration, which leaves an in-range code untouched
             # syntactically), the modes under test are configured afterwards
-            x = C.raw_fxp(F, sx, nx, fx, inp['a'], op_sizing=cfg['sizing'], op_method=method)
+            if cfg.get('shape'):
+                x = C.raw_fxp(F, sx, nx, fx, [inp['a'], inp['a1']], (2,), op_sizing=cfg['sizing'], op_method=method)
+                y = C.raw_fxp(F, sy, ny, fy, [inp['b'], inp['b1']], (2,)) if cfg.get('yshape') else C.raw_fxp(F, sy, ny, fy, inp['b'])
+            else:
+                x = C.raw_fxp(F, sx, nx, fx, inp['a'], op_sizing=cfg['sizing'], op_method=method)
+                y = C.raw_fxp(F, sy, ny, fy, inp['b'])
             x.config.rounding, x.config.overflow = cfg['rounding'], cfg['overflow']
-            y = C.raw_fxp(F, sy, ny, fy, inp['b'])
             y.config.rounding, y.config.overflow = cfg['rounding2'], cfg['overflow2']
             if cfg['target'] is None:
                 z = _PY[cfg['op']](x, y)
@@ -136,11 +156,15 @@ def _exact(op, a, fa, b, fb):
 
 def _quantised_ok(name, z, exact, r, o):
     s, n, f = z['fmt']
-    want = SP.Q(exact, s, n, f, r, o)
-    fl = SP.flags(exact, s, n, f, r, o)
-    code = O.cells(z['val'])[0]
-    return [(name + ':code', T.icmp(code, want, '==')), (name + ':overflow_flag', SP.IFF(z['status']['overflow'], fl[0])),
-            (name + ':underflow_flag', SP.IFF(z['status']['underflow'], fl[1]))]
+    exacts = exact if isinstance(exact, list) else [exact]
+    codes = O.cells(z['val'])
+    out = [(name + ':n_cells', len(codes) == len(exacts))]
+    fls = [SP.flags(e, s, n, f, r, o) for e in exacts]
+    for i, (e, code) in enumerate(zip(exacts, codes)):
+        out.append((name + ':code' + ('_%d' % i if i else ''), T.icmp(code, SP.Q(e, s, n, f, r, o), '==')))
+    out.append((name + ':overflow_flag', SP.IFF(z['status']['overflow'], SP.OR(*[fl[0] for fl in fls]))))
+    out.append((name + ':underflow_flag', SP.IFF(z['status']['underflow'], SP.OR(*[fl[1] for fl in fls]))))
+    return out
 
 
 def post(cfg, inp, ob):
@@ -158,6 +182,8 @@ def post(cfg, inp, ob):
         sy, ny, fy = cfg['y']
         b = inp['b']
         exact = _exact(cfg['op'], a, fx, b, fy)
+        if cfg.get('shape'):
+            exact = [exact, _exact(cfg['op'], inp['a1'], fx, inp['b1'] if cfg.get('yshape') else b, fy)]
         out = []
         if cfg['target'] is None:
             r, o = cfg['rounding'], cfg['overflow']              # first operand's configuration governs
@@ -179,7 +205,7 @@ def post(cfg, inp, ob):
                 if want is not None:
                     out.append((method + ':policy_format', z['fmt'] == [sz, int(sz) + want[0] + want[1], want[1]]))
         out.append(('raw_and_repr_agree', SP.AND(ob['raw']['fmt'] == ob['repr']['fmt'],
-                                                 T.icmp(O.cells(ob['raw']['val'])[0], O.cells(ob['repr']['val'])[0], '=='))))
+                                                 *[T.icmp(u, v, '==') for u, v in zip(O.cells(ob['raw']['val']), O.cells(ob['repr']['val']))])))
         return out
     # constant operand
     z = ob['z']
